@@ -245,6 +245,9 @@ class MethodTryProductH(_H):
 
 
 class NonexclusiveWrapperH(_H):
+    def nonexclusive_ports(self):
+        return {"c1", "c2"}
+
     def make(self):
         from transactron.lib.transformers import NonexclusiveWrapper
         w = self.cfg["w"]
